@@ -193,6 +193,36 @@ def probe_rescaling(seed, D, N, order):
             worst = worst and all(e <= 1e-9 * sc + 1e-12 for e in errs.values())
             allerrs.update({k: e for k, e in errs.items() if not e <= 1e-9 * sc + 1e-12} or {})
             scale = max(scale, sc)
+    # the same three interfaces of the gradient-norm and of the general nonlinear family, non-default maximum_absolute
+    mx = 1.3
+    b2 = float(rng.uniform(-1, 1))
+    co = (0.0, 0.0, float(rng.uniform(0.01, 0.1)))
+    al = tuple(c * dt / L ** j for j, c in enumerate(co))
+    gam = tuple(a if j == 0 else a * N ** j * 2 ** (j - 1) * D for j, a in enumerate(al))
+    u = S.random_state(rng, 1, D, N, "smooth")
+    fam = []
+    g = gen.GeneralGradientNormStepper(D, L, N, dt, linear_coefficients=co, gradient_norm_scale=b2, order=order)
+    fam.append(("gradient-norm", g, [
+        ("normalized", gen.NormalizedGradientNormStepper(D, N, normalized_linear_coefficients=al, normalized_gradient_norm_scale=b2 * dt / L ** 2, order=order)),
+        ("difficulty", gen.DifficultyGradientNormStepper(D, N, linear_difficulties=gam, gradient_norm_difficulty=b2 * dt / L ** 2 * mx * N ** 2 * D,
+                                                         maximum_absolute=mx, order=order))]))
+    nl = (float(rng.uniform(-0.5, 0.5)), float(rng.uniform(-1, 1)), float(rng.uniform(-1, 1)))
+    bet = (nl[0] * dt, nl[1] * dt / L, nl[2] * dt / L ** 2)
+    g = gen.GeneralNonlinearStepper(D, L, N, dt, linear_coefficients=co, nonlinear_coefficients=nl, order=order)
+    fam.append(("nonlinear", g, [
+        ("normalized", gen.NormalizedNonlinearStepper(D, N, normalized_linear_coefficients=al, normalized_nonlinear_coefficients=bet, order=order)),
+        ("difficulty", gen.DifficultyNonlinearStepper(D, N, linear_difficulties=gam,
+                                                      nonlinear_difficulties=(bet[0], bet[1] * mx * N * D, bet[2] * mx * N ** 2 * D),
+                                                      maximum_absolute=mx, order=order))]))
+    for fname, g, others in fam:
+        y = np.asarray(g(jnp.asarray(u)))
+        sc = float(np.max(np.abs(y))) + 1e-12
+        for k, m in others:
+            e = float(np.max(np.abs(np.asarray(m(jnp.asarray(u))) - y)))
+            if not e <= 1e-9 * sc + 1e-12:
+                worst = False
+                allerrs[f"{fname}:{k}(maximum_absolute={mx})"] = e
+        scale = max(scale, sc)
     return {"ok": bool(worst), "errs": allerrs, "scale": scale}
 
 
@@ -213,7 +243,29 @@ def probe_inverse(seed):
     dc = G.reduce_normalized_coefficients_to_difficulty(cs, num_spatial_dims=D, num_points=N)
     doc = [c if j == 0 else c * N ** j * 2 ** (j - 1) * D for j, c in enumerate(cs)]
     worst = max(worst, max(abs(a - b) / (abs(b) + 1) for a, b in zip(dc, doc)))
-    return {"ok": worst <= 1e-12, "worst": worst}
+    # every scale conversion against its documented formula (β₁ = b₁Δt/L, β₂ = b₂Δt/L², δ₁ = β₁·M·N·D, δ₂ = β₂·M·N²·D,
+    # δ₀ = β₀) with a non-default maximum_absolute, and their inverses
+    b = float(rng.normal())
+    docs = {
+        "normalize_convection_scale": (G.normalize_convection_scale(b, domain_extent=L, dt=dt), b * dt / L),
+        "denormalize_convection_scale": (G.denormalize_convection_scale(b, domain_extent=L, dt=dt), b * L / dt),
+        "normalize_gradient_norm_scale": (G.normalize_gradient_norm_scale(b, domain_extent=L, dt=dt), b * dt / L ** 2),
+        "denormalize_gradient_norm_scale": (G.denormalize_gradient_norm_scale(b, domain_extent=L, dt=dt), b * L ** 2 / dt),
+        "reduce_convection": (G.reduce_normalized_convection_scale_to_difficulty(b, num_spatial_dims=D, num_points=N, maximum_absolute=M), b * M * N * D),
+        "extract_convection": (G.extract_normalized_convection_scale_from_difficulty(b, num_spatial_dims=D, num_points=N, maximum_absolute=M), b / (M * N * D)),
+        "reduce_gradient_norm": (G.reduce_normalized_gradient_norm_scale_to_difficulty(b, num_spatial_dims=D, num_points=N, maximum_absolute=M), b * M * N ** 2 * D),
+        "extract_gradient_norm": (G.extract_normalized_gradient_norm_scale_from_difficulty(b, num_spatial_dims=D, num_points=N, maximum_absolute=M), b / (M * N ** 2 * D)),
+    }
+    s3 = tuple(float(x) for x in rng.normal(size=3))
+    red = G.reduce_normalized_nonlinear_scales_to_difficulty(s3, num_spatial_dims=D, num_points=N, maximum_absolute=M)
+    ext = G.extract_normalized_nonlinear_scales_from_difficulty(s3, num_spatial_dims=D, num_points=N, maximum_absolute=M)
+    for j, (f_r, f_e) in enumerate(((1.0, 1.0), (M * N * D, 1 / (M * N * D)), (M * N ** 2 * D, 1 / (M * N ** 2 * D)))):
+        docs[f"reduce_nonlinear[{j}]"] = (red[j], s3[j] * f_r)
+        docs[f"extract_nonlinear[{j}]"] = (ext[j], s3[j] * f_e)
+    badf = {k: float(abs(a - d) / (abs(d) + 1e-300)) for k, (a, d) in docs.items() if not abs(a - d) <= 1e-12 * abs(d)}
+    if badf:
+        worst = max(worst, max(badf.values()))
+    return {"ok": worst <= 1e-12 and not badf, "worst": worst, "formulas": badf, "D": D, "N": N, "M": M, "L": L, "dt": dt}
 
 
 def oracle(ctx, deep):
@@ -232,7 +284,7 @@ def oracle(ctx, deep):
                           "probe": "rescaling", "args": {"seed": ctx.seed + 6, "D": D, "N": N, "order": order}, "observed": r})
     r = probe_inverse(ctx.seed)
     if not r["ok"]:
-        fails.append({"key": "C13:conversion", "what": f"conversion functions are not inverse / not the documented formula ({r['worst']:.2e})",
+        fails.append({"key": "C13:conversion", "what": f"conversion functions are not inverse / not the documented formula ({r['worst']:.2e}; relative deviation per formula: {r.get('formulas')}; D={r.get('D')}, N={r.get('N')}, M={r.get('M')})"[:500],
                       "probe": "inverse", "args": {"seed": ctx.seed}, "observed": r})
     # dedupe by key
     seen, out = set(), []
